@@ -64,6 +64,22 @@ func c17Core(a []int, inbound <-chan cemi.Message, events <-chan GroupEvent, pus
 	var order []int
 	gate := make(chan struct{})
 	group := events != nil
+	if len(a) > 3 && a[3] == 1 {
+		// warm-up: one telegram is accepted while nobody reads, parks in the overflow queue and is then
+		// taken - the burst below meets the queue in the state a longer history leaves behind
+		w := &cemi.LDataInd{LData: cemi.LData{Control2: cemi.Control2GroupAddr, Destination: 999,
+			Data: &cemi.AppData{Command: cemi.GroupValueWrite, Data: []byte{0}}}}
+		go push(w)
+		verifQuiesce()
+		if group {
+			ev := <-events
+			verifAssert("C17.warmup", ev.Destination == 999)
+		} else {
+			m := <-inbound
+			verifAssert("C17.warmup", m.(*cemi.LDataInd).Destination == 999)
+		}
+		verifQuiesce()
+	}
 	consume := func(next func() (int, bool)) {
 		verifDaemon()
 		n := 0
